@@ -433,6 +433,18 @@ def hunts(quick, focus, timeout):
             cfg['other_space'] = True
             cfg['repro'] = False
             out.append(cfg)
+    # GP on an objective that never beats the FLOAT_MAX sentinel: the placeholder best tree of the fresh space stays the best tree for the
+    # whole task while mutation and crossover go on -- its records must stay what they were (judged for the record properties only; the
+    # sentinel corner itself is recorded finding n)
+    if 'GP' in opts:
+        for i in range(2 if quick else 8):
+            c = {'objective': 'float_max', 'ret': 'pyfloat', 'box': ['sym10', 'asym'][i % 2], 'agents': [12, 20][i % 2], 'n_variables': [2, 1][i % 2],
+                 'n_dimensions': 1, 'n_iterations': [6, 10][i % 2], 'draws': 'seeded', 'hp': 'hi', 'store_best_only': False, 'hook': 'observe',
+                 'functions': ['arith', 'all'][i % 2], 'depth': (1, 3), 'n_terminals': 2}
+            cfg = make('GP', 'tree', c, 9930 + i, timeout)
+            cfg['only_props'] = ['C04', 'C12', 'C07', 'C08']
+            cfg['repro'] = False
+            out.append(cfg)
     # bound lists of mixed Python types (integer lower bounds, fractional upper bounds): the declared box is the one given
     for o in opts:
         if o == 'GP' or 'search' not in WR[o]['spaces']:
